@@ -2,7 +2,7 @@ import OmplModel.Model.Rng
 import OmplModel.Model.RngSphere
 import OmplModel.Driver.Common
 /-!
-Line-protocol driver for the RNG model.  Header: `rng clock=<c> [copies=rebind]` (`c` = the value the model's seed generator
+Line-protocol driver for the RNG model.  Header: `rng clock=<c> [copies=rebind] [hni=fixed]` (`c` = the value the model's seed generator
 takes for the microsecond clock; the C++ harness ignores it and uses the real clock).
 
 ops (k = index of an RNG object in creation order; doubles as u64 bit patterns)
@@ -37,6 +37,8 @@ structure St where
   /-- header option `copies=rebind`: the tree under test declares `RNG(const RNG&)` (the proposed fix of F200), whose
   copies get a SphericalData of their own -/
   rebind : Bool := false
+  /-- header option `hni=fixed`: the tree under test no longer casts before clamping in `halfNormalInt` (fix of F204) -/
+  hniFixed : Bool := false
 
 def St.ownerOf (st : St) (k : Nat) : Nat :=
   match st.copies.lookup k with
@@ -58,10 +60,18 @@ def init1 (ts : List String) : Option St :=
     else none
   | _ => none
 
+def applyOpt (st : Option St) (o : String) : Option St :=
+  match st with
+  | none => none
+  | some st =>
+    if o = "copies=rebind" then some { st with rebind := true }
+    else if o = "hni=fixed" then some { st with hniFixed := true }
+    else none
+
 def init (ts : List String) : Option St :=
   match ts with
-  | [a, c, "copies=rebind"] => (init1 [a, c]).map fun st => { st with rebind := true }
-  | _ => init1 ts
+  | a :: c :: opts => opts.foldl applyOpt (init1 [a, c])
+  | _ => none
 
 def showFirst (st : St) : String :=
   if st.w.sg.firstSeed = st.clock then "first=clock" else s!"first={st.w.sg.firstSeed.toNat}"
@@ -225,10 +235,18 @@ def step (st : St) (ts : List String) : St × String :=
       if a ≤ b ∧ -2147483648 ≤ a ∧ b ≤ 2147483647 then onRng st k (.uniformInt a b) else (st, "bad-op")
     | _, _ => (st, "bad-op")
   | ["hni", k, a, b, f] =>
-    match parseInt? a, parseInt? b, parseFloatBits? f with
-    | some a, some b, some f =>
-      if a ≤ b ∧ -1000000000 ≤ a ∧ b ≤ 1000000000 then onRng st k (.halfNormalInt a b f) else (st, "bad-op")
-    | _, _, _ => (st, "bad-op")
+    match parseNat? k, parseInt? a, parseInt? b, parseFloatBits? f with
+    | some kk, some a, some b, some f =>
+      if a ≤ b ∧ -2147483648 ≤ a ∧ b ≤ 2147483647 then
+        if st.hniFixed then
+          match st.w.rngs[kk]? with
+          | none => (st, "no-such-rng")
+          | some r =>
+            let d := r.halfNormalIntFixed a b f
+            ({ st with w := { st.w with rngs := st.w.rngs.setIfInBounds kk d.2 } }, showOut (optInt d.1))
+        else onRng st k (.halfNormalInt a b f)
+      else (st, "bad-op")
+    | _, _, _, _ => (st, "bad-op")
   | _ => (st, "bad-op")
 
 end OmplModel.Driver.RngDrv
